@@ -191,6 +191,29 @@ class Oracle:
         return False
 
 
+def declared_cycle(m):
+    """signature of known finding K1, read off the tasks' own (public) dependency / target sets: the DECLARED ordering
+    graph (W -> R when W writes one of R's declared dependencies, W != R) contains a cycle.  With acyclic data flow this
+    happens when tasks on members of one nested container feed each other through other locations: each lists the
+    container among its targets and its dependencies."""
+    tasks = dict(m.tasks)
+    edges = {w: [r for r, rt in tasks.items() if r != w and set(wt.targets) & set(rt.dependencies)] for w, wt in tasks.items()}
+    color = {}
+
+    def visit(v):
+        color[v] = 1
+        for u in edges[v]:
+            if color.get(u) == 1:
+                return True
+            if color.get(u) is None and visit(u):
+                return True
+        color[v] = 2
+        return False
+    import sys
+    sys.setrecursionlimit(max(sys.getrecursionlimit(), 20000))
+    return any(color.get(v) is None and visit(v) for v in tasks)
+
+
 class World:
     """the real thing: containers + Manager + refs"""
 
